@@ -24,7 +24,7 @@ while read C PROPS; do
   for P in $PROPS; do
     grep -q "^$C $P " $OUT/summary.txt && continue
     RD=$OUT/$C-$P; rm -rf $RD; mkdir -p $RD
-    R=$(cd /verif && AXVERIF_REPLAY_DIR=$RD ./check $P quick 2>&1); RC=$?
+    R=$(cd /verif && AXVERIF_EVIDENCE_DIR=/verif/target/mutant-evidence AXVERIF_REPLAY_DIR=$RD ./check $P quick 2>&1); RC=$?
     NV=$(echo "$R" | grep -c "^VIOLATION")
     echo "$C $P exit=$RC violations=$NV  $SUBJ" >> $OUT/summary.txt
     K=0
